@@ -305,7 +305,82 @@ func domainPDUs(sp *refcodec.Spec, msgs []*refcodec.Msg, r *prng.Rand, thorough 
 						b, cn := withSlot(def, r, si, ib, 0)
 						add(def, "nested-whole", b, cn)
 					}
+					// the inner message behind one to three other octets (a container type, a
+					// length, a padding octet), so that it starts at another offset of the PDU
+					if len(ib)+3 <= sl.TypeMax() {
+						for nl := 1; nl <= 3; nl++ {
+							if ii >= 0 && !thorough && (ii+nl)%2 == 0 {
+								continue
+							}
+							lead := r.Bytes(nl)
+							b, cn := withSlot(def, r, si, append(lead, ib...), 0)
+							add(def, "nested-offset", b, cn)
+						}
+					}
+					// a consistent transport: the payload container type says "N1 SM information"
+					// and the inner 5GSM message carries a PDU session identity 1..15
+					if inner.Family == "GSM" && len(ib) >= 4 {
+						ib2 := cloneB(ib)
+						ib2[0], ib2[1] = 0x2e, byte(1+r.Intn(15))
+						for variant := 0; variant < 2; variant++ {
+							pl := refcodec.NewPlan(def, r, 3)
+							for j := range pl.Mand {
+								if def.Slots[pl.Mand[j].Slot].Name == "SpareHalfOctetAndPayloadContainerType" && len(pl.Mand[j].Val) == 1 {
+									pl.Mand[j].Val[0] = pl.Mand[j].Val[0]&0xf0 | 0x01
+								}
+							}
+							if sl.Mandatory {
+								pl.Mand[si].Decl, pl.Mand[si].Val = len(ib2), ib2
+							} else {
+								pl.Opt = append(pl.Opt, refcodec.OptElem(def, si, len(ib2), ib2, r))
+							}
+							if variant == 1 { // with every other optional element (incl. the routing ones)
+								for _, sj := range def.OptSlots() {
+									if sj != si {
+										pl.Opt = append(pl.Opt, refcodec.LegalOpt(def, sj, r, 3))
+									}
+								}
+								sortOpts(pl)
+							}
+							if ib2 != nil && len(ib2) <= sl.TypeMax() {
+								add(def, "nested-n1-sm", pl.Bytes(), pl.Canonical())
+							}
+						}
+					}
 				}
+			case false:
+			}
+			// this element LAST and one or two octets short, every other optional element in
+			// front of it: the decoder meets the end of the input inside the last value
+			if !sl.Mandatory && sl.Format != "TV1" {
+				pl := refcodec.NewPlan(def, r, 3)
+				for _, sj := range def.OptSlots() {
+					if sj != si {
+						e := refcodec.LegalOpt(def, sj, r, 3)
+						if len(e.Val) > 40 {
+							n := def.Slots[sj].Min
+							if len(def.Slots[sj].Allowed) > 0 {
+								n = def.Slots[sj].Allowed[0]
+							}
+							e = refcodec.OptElem(def, sj, n, r.Bytes(n), r)
+						}
+						pl.Opt = append(pl.Opt, e)
+					}
+				}
+				n := refcodec.InRangeLen(r, sl)
+				if n > 40 {
+					n = sl.Min
+				}
+				if n < 2 && sl.Max >= 2 && sl.LenOK(2) {
+					n = 2
+				}
+				pl.Opt = append(pl.Opt, refcodec.OptElem(def, si, n, r.Bytes(n), r))
+				b := pl.Bytes()
+				for cut := 1; cut <= 2 && cut < len(b); cut++ {
+					add(def, "last-element-short", cloneB(b[:len(b)-cut]), false)
+				}
+			}
+			switch {
 			case sl.Name == "EAPMessage":
 				for code := 0; code <= 7; code++ {
 					for _, n := range []int{4, 5, 6, 8, 20, 260} {
@@ -316,6 +391,21 @@ func domainPDUs(sp *refcodec.Spec, msgs []*refcodec.Msg, r *prng.Rand, thorough 
 					}
 				}
 			case sl.Name == "ExtendedProtocolConfigurationOptions":
+				for _, id := range pcoIDs {
+					for l := 0; l <= 5; l++ {
+						if !thorough && (int(id)+l+si)%3 != 0 {
+							continue
+						}
+						pc := pcoContents(r, l)
+						pc = append(pc, byte(id>>8), byte(id), byte(l))
+						pc = append(pc, r.Bytes(l)...)
+						if r.Chance(1, 4) {
+							pc[0] = []byte{0x80, 0x00, 0x81, 0x87}[r.Intn(4)]
+						}
+						b, cn := withSlot(def, r, si, pc, l%2)
+						add(def, "pco-short-last-unit", b, cn)
+					}
+				}
 				for v := 0; v < 48; v++ {
 					b, cn := withSlot(def, r, si, pcoContents(r, v), v%2)
 					add(def, "pco-ppp", b, cn)
@@ -422,4 +512,13 @@ func bigUnits(msgs []*refcodec.Msg, tier string, weight int, fn func(c *core.Ctx
 		}})
 	}
 	return us
+}
+
+// sortOpts puts the optional elements of a plan into table order (stable).
+func sortOpts(pl *refcodec.Plan) {
+	for i := 1; i < len(pl.Opt); i++ {
+		for j := i; j > 0 && pl.Opt[j].Slot < pl.Opt[j-1].Slot; j-- {
+			pl.Opt[j], pl.Opt[j-1] = pl.Opt[j-1], pl.Opt[j]
+		}
+	}
 }
